@@ -54,6 +54,9 @@ func checkC09(r *Run) {
 	// hasNullSignature really scans Sigs
 	r.RequireOnSuccess("C09-R3", "coin.Transaction.hasNullSignature")
 	checkPure(r, "C09-R4", "coin.Transaction.verify")
+	// every signature valid and recoverable: the recovery primitive's own range tests
+	ruleRecoverRange(r, "C09-R6")
+	ruleExactDecoders(r, "C09-R3", "coin.")
 	// R5: the transaction's generated codec is the reference codec of its type (decode accepts exactly what
 	// encode can produce: same field order, same length limits) — the rule set of C21 on this one type
 	n, _, _ := codecObligations(r, "C09-R5", func(t string) bool { return t == "coin.Transaction" })
